@@ -6,26 +6,29 @@
 // connected to a scripted server (pkg/script). Application actions, each run
 // in a goroutine of its own with a context that never expires: Subscribe,
 // Subscription.Cancel (also of a subscription that was cancelled before),
-// Client.ForgetSubscription, Subscription.Monitor, Subscription.Unmonitor.
+// Client.ForgetSubscription, Subscription.Monitor, Subscription.Unmonitor. The
+// application's notification reader reads at once; in half of the cases it
+// calls Client.SubscriptionIDs for every notification (unbuffered channel).
 // Environment actions: the server releases the outstanding PublishRequest
-// (keep-alive or data change), fails it with a ServiceFault (BadNoSubscription,
-// BadTimeout, BadTooManyPublishRequests, BadInternalError, BadSessionIdInvalid,
-// BadSubscriptionIdInvalid, BadSequenceNumberUnknown), withholds it (the
-// client's publish timeout is 500 ms), or drops every connection. Per case the
-// server keeps or loses the session across a reconnect and transfers or
-// refuses the subscriptions.
+// (keep-alive, or a message with two data change notifications), fails it with
+// a ServiceFault (BadNoSubscription, BadTimeout, BadTooManyPublishRequests,
+// BadInternalError, BadSessionIdInvalid, BadSubscriptionIdInvalid,
+// BadSequenceNumberUnknown), withholds it (the client's publish timeout is
+// 500 ms), or drops every connection. Per case the server keeps or loses the
+// session across a reconnect and transfers or refuses the subscriptions.
 //
 // Oracle: after the script the server answers every outstanding and every
-// further PublishRequest (truthfully: keep-alive for a subscription it has,
+// further PublishRequest (truthfully: data for a subscription it has,
 // BadNoSubscription if it has none). Then (1) every API call has returned
 // within 30 s (>= 20x the longest legitimate wait of the scenario, which is a
 // request timeout of 500 ms or the client's own 1 s back-off sleeps);
 // (2) if the client still has a registered subscription that the server has
 // too, PublishRequests keep arriving; (3) a fresh Subscribe returns and a
 // PublishRequest arrives afterwards. A failure is reported only if two
-// goroutine dumps taken 1 s apart show the same goroutines parked at the same
-// gopcua frames, and only if two re-executions of the case fail the same way
-// (DESIGN 3.4); otherwise the case is counted inconclusive.
+// goroutine dumps taken 1 s apart show the goroutines concerned (the blocked
+// API calls; the publish loop) parked at the same gopcua frames, and only if
+// two re-executions of the case fail too (DESIGN 3.4); otherwise the case is
+// counted inconclusive.
 package c27
 
 import (
@@ -1170,6 +1173,11 @@ func execute(c Case) (res result, err error) {
 		// e.g. a reconnect in progress: try until it is over
 		deadline := time.Now().Add(progressBound)
 		for last.err != nil && time.Now().Before(deadline) {
+			if monitorStopped() {
+				// the last fault of the script stopped the connection monitor a moment ago
+				r.cls["progress-clauses-skipped(client-Closed,AutoReconnect=false)"] = true
+				return res, nil
+			}
 			time.Sleep(100 * time.Millisecond)
 			r.subscribe(len(c.Actions), 0)
 			if !waitAll(hangBound) {
@@ -1186,6 +1194,13 @@ func execute(c Case) (res result, err error) {
 		}
 		if last.err != nil {
 			r.cls["fresh-subscribe-kept-failing(no-verdict)"] = true
+			if os.Getenv("VERIF_C27_DEV_SURVEY") != "" {
+				cj, _ := json.Marshal(c)
+				w.mu.Lock()
+				fmt.Printf("NOVERDICT fresh Subscribe kept failing: %v; state %v; open conns %d\n  case: %s\n  goroutines: %s\n  events: %s\n", last.err, cl.State(), len(w.open), cj,
+					strings.Join(allGopcua(base), "\n    "), strings.Join(w.events, "\n    "))
+				w.mu.Unlock()
+			}
 			return res, nil
 		}
 		r.cls["fresh-subscribe-succeeded-after-retries"] = true
